@@ -121,6 +121,33 @@ func specShape(keys []rkey) string {
 	return strings.Join(ss, "+")
 }
 
+// classShape is the still coarser form used in violation classes: which kinds of key the
+// specification combines (one root cause should not fan out over every field type and arity).
+func classShape(keys []rkey) string {
+	var sc, fd, id bool
+	for _, k := range keys {
+		switch k.by {
+		case "score":
+			sc = true
+		case "id":
+			id = true
+		default:
+			fd = true
+		}
+	}
+	var ss []string
+	if sc {
+		ss = append(ss, "score")
+	}
+	if fd {
+		ss = append(ss, "field")
+	}
+	if id {
+		ss = append(ss, "id")
+	}
+	return strings.Join(ss, "+")
+}
+
 func specHasID(keys []rkey) bool {
 	for _, k := range keys {
 		if k.by == "id" {
@@ -645,25 +672,26 @@ func specsLong() [][]rkey {
 	}
 }
 
-// families: the stream families of one phase. The PreAllocSizeSkipCap=3 phase of the quick tier
-// is restricted to the single-key family (shorter) and the long streams.
+// families: the stream families of one phase. What PreAllocSizeSkipCap changes (initial store
+// capacity, DocumentMatch pool size) does not depend on the kind of sort key, so the cap=3 phase is
+// restricted to the single-key family (one step shorter) and the long streams.
 func families(r *mc.Run, capv int) []family {
 	long := family{name: "long-binary", alpha: alphaScoreKey("a", "b")[1:3], minLen: 12, maxLen: 12, specs: specsLong()}
 	if r.Quick() {
 		long.lean = true
 		long.specs = [][]rkey{{sc(true)}, {sc(false)}, {fk("k", false, false)}, {sc(true), id(true)}, {sc(false), fk("k", true, false)}}
-		if capv < 1000 {
-			return []family{
-				{name: "score×key", alpha: alphaScoreKey("a", "b", "_"), maxLen: 3, specs: specsSingle(), allPerms: 3},
-				long,
-			}
-		}
 	} else {
-		long.maxLen = 14
+		long.maxLen = 13
+	}
+	if capv < 1000 {
+		return []family{
+			{name: "score×key", alpha: alphaScoreKey("a", "b", "_"), maxLen: mc.Pick(r, 3, 4), specs: specsSingle(), allPerms: 3},
+			long,
+		}
 	}
 	return []family{
 		{name: "score×key", alpha: alphaScoreKey("a", "b", "_"), maxLen: mc.Pick(r, 4, 5), specs: specsSingle(), allPerms: mc.Pick(r, 3, 4), rotateAt: mc.Pick(r, 4, 0)},
-		{name: "k×n", alpha: alphaKN(), maxLen: mc.Pick(r, 3, 4), specs: specsTwoField(), allPerms: mc.Pick(r, 3, 4)},
+		{name: "k×n", alpha: alphaKN(), maxLen: mc.Pick(r, 3, 4), specs: specsTwoField(), allPerms: 3},
 		{name: "score×multikey", alpha: alphaScoreKey("a", "b", "_", "ca"), maxLen: mc.Pick(r, 3, 4), specs: specsMulti(), allPerms: 3},
 		long,
 	}
@@ -763,6 +791,13 @@ func hitIDs(h search.DocumentMatchCollection) []string {
 	return out
 }
 
+func kindOf(after []string) string {
+	if after != nil {
+		return "after"
+	}
+	return "page"
+}
+
 func storeName(sizePlusSkip int) string {
 	if sizePlusSkip > 10 {
 		return "heap"
@@ -818,6 +853,7 @@ func evalStream(r *mc.Run, fam *family, docs []*rdoc, si int, identity bool, cap
 		exp := refSort(docs, keys)
 		expIDs := idsOf(exp)
 		shape := specShape(keys)
+		cshape := classShape(keys)
 		tied := tiedCount(exp, keys)
 		if tied > 0 {
 			a.add("coll_stream_specs_with_tied_keys", 1)
@@ -839,13 +875,13 @@ func evalStream(r *mc.Run, fam *family, docs []*rdoc, si int, identity bool, cap
 			if pv != nil {
 				rep := base("panic", size, skip, after)
 				rep["panic"] = fmt.Sprint(pv)
-				r.Violation("panic:collector:"+storeName(size+skip)+":"+shape, fmt.Sprintf("collector panicked: %v @ %s; stream=%v sort=%s size=%d skip=%d after=%q", pv, mc.TrimStack(st), streamString(docs), specString(keys), size, skip, after), rep)
+				r.Violation("panic:"+kindOf(after)+":"+cshape, fmt.Sprintf("collector panicked: %v @ %s; stream=%v sort=%s size=%d skip=%d after=%q", pv, mc.TrimStack(st), streamString(docs), specString(keys), size, skip, after), rep)
 				return res, false
 			}
 			if res.err != nil {
 				rep := base("error", size, skip, after)
 				rep["error"] = res.err.Error()
-				r.Violation("error:collector:"+shape, fmt.Sprintf("Collect returned %v; stream=%v sort=%s size=%d skip=%d after=%q", res.err, streamString(docs), specString(keys), size, skip, after), rep)
+				r.Violation("error:"+kindOf(after)+":"+cshape, fmt.Sprintf("Collect returned %v; stream=%v sort=%s size=%d skip=%d after=%q", res.err, streamString(docs), specString(keys), size, skip, after), rep)
 				return res, false
 			}
 			return res, true
@@ -872,17 +908,17 @@ func evalStream(r *mc.Run, fam *family, docs []*rdoc, si int, identity bool, cap
 				if !eqS(got, expIDs[lo:hi]) {
 					rep := base("page", size, skip, nil)
 					rep["got"], rep["want"] = got, expIDs[lo:hi]
-					r.Violation("page:collector:"+store+":"+shape, fmt.Sprintf("stream=%v sort=%s size=%d skip=%d cap=%d: hits %v, want positions [%d,%d) of %v = %v", streamString(docs), specString(keys), size, skip, capv, got, lo, hi, expIDs, expIDs[lo:hi]), rep)
+					r.Violation("page:"+store+":"+cshape, fmt.Sprintf("collector level: stream=%v sort=%s size=%d skip=%d cap=%d: hits %v, want positions [%d,%d) of %v = %v", streamString(docs), specString(keys), size, skip, capv, got, lo, hi, expIDs, expIDs[lo:hi]), rep)
 				}
 				if int(res.total) != n {
 					rep := base("total", size, skip, nil)
 					rep["got_total"] = res.total
-					r.Violation("total:collector:"+store, fmt.Sprintf("stream=%v sort=%s size=%d skip=%d: Total %d, want %d", streamString(docs), specString(keys), size, skip, res.total, n), rep)
+					r.Violation("total:page", fmt.Sprintf("stream=%v sort=%s size=%d skip=%d: Total %d, want %d", streamString(docs), specString(keys), size, skip, res.total, n), rep)
 				}
 				if res.max != wantMax {
 					rep := base("maxscore", size, skip, nil)
 					rep["got_max"] = res.max
-					r.Violation("maxscore:collector:"+store, fmt.Sprintf("stream=%v sort=%s size=%d skip=%d: MaxScore %v, want %v", streamString(docs), specString(keys), size, skip, res.max, wantMax), rep)
+					r.Violation("maxscore:page", fmt.Sprintf("stream=%v sort=%s size=%d skip=%d: MaxScore %v, want %v", streamString(docs), specString(keys), size, skip, res.max, wantMax), rep)
 				}
 			}
 		}
@@ -900,7 +936,7 @@ func evalStream(r *mc.Run, fam *family, docs []*rdoc, si int, identity bool, cap
 					bk, ok := boundaryKeys(full.hits[h], keys)
 					if !ok {
 						rep := base("decoded-sort", n+1, 0, nil)
-						r.Violation("decoded-sort:collector:"+shape, fmt.Sprintf("stream=%v sort=%s: hit %s has DecodedSort %q for %d sort keys", streamString(docs), specString(keys), full.hits[h].ID, full.hits[h].DecodedSort, len(keys)), rep)
+						r.Violation("decoded-sort:"+cshape, fmt.Sprintf("stream=%v sort=%s: hit %s has DecodedSort %q for %d sort keys", streamString(docs), specString(keys), full.hits[h].ID, full.hits[h].DecodedSort, len(keys)), rep)
 						continue
 					}
 					missNum := boundaryMissingNumeric(exp[h], keys)
@@ -920,7 +956,7 @@ func evalStream(r *mc.Run, fam *family, docs []*rdoc, si int, identity bool, cap
 						want := expIDs[h+1 : hi]
 						got := hitIDs(res.hits)
 						if !eqS(got, want) {
-							cls := "after:collector:" + storeName(size) + ":" + shape
+							cls := "after:" + cshape
 							if missNum {
 								cls = knownAfterClass
 							}
@@ -931,14 +967,14 @@ func evalStream(r *mc.Run, fam *family, docs []*rdoc, si int, identity bool, cap
 						if int(res.total) != n {
 							rep := base("total-after", size, 0, bk)
 							rep["got_total"] = res.total
-							r.Violation("total:collector:after", fmt.Sprintf("stream=%v sort=%s after=%q: Total %d, want %d", streamString(docs), specString(keys), bk, res.total, n), rep)
+							r.Violation("total:after", fmt.Sprintf("stream=%v sort=%s after=%q: Total %d, want %d", streamString(docs), specString(keys), bk, res.total, n), rep)
 						}
 					}
 				}
 			} else if ok {
 				rep := base("page", n+1, 0, nil)
 				rep["got"], rep["want"] = hitIDs(full.hits), expIDs
-				r.Violation("page:collector:"+storeName(n+1)+":"+shape, fmt.Sprintf("stream=%v sort=%s size=%d skip=0 cap=%d: hits %v, want %v", streamString(docs), specString(keys), n+1, capv, hitIDs(full.hits), expIDs), rep)
+				r.Violation("page:"+storeName(n+1)+":"+cshape, fmt.Sprintf("stream=%v sort=%s size=%d skip=0 cap=%d: hits %v, want %v", streamString(docs), specString(keys), n+1, capv, hitIDs(full.hits), expIDs), rep)
 			}
 		}
 		a.add("coll_after_runs", int64(nAfter))
@@ -998,7 +1034,13 @@ func partA(r *mc.Run, fams []family, capv int) {
 			}
 		}
 	}
-	r.ParFor(len(jobs), 0, func(ji int) {
+	// the shortest streams first and in order, so that the counterexample kept for a class is a
+	// smallest one and the same on every run; the rest in parallel
+	nseq := 0
+	for nseq < len(jobs) && jobs[nseq].fam == &fams[0] && jobs[nseq].length <= 2 {
+		nseq++
+	}
+	runJob := func(ji int) {
 		j := jobs[ji]
 		a := &acc{cnt: map[string]int64{}}
 		defer a.flush(r)
@@ -1026,7 +1068,11 @@ func partA(r *mc.Run, fams []family, capv int) {
 				evalStream(r, j.fam, docs, si, isIdentity(perm), capv, a)
 			}
 		}
-	})
+	}
+	for ji := 0; ji < nseq; ji++ {
+		runJob(ji)
+	}
+	r.ParFor(len(jobs)-nseq, 0, func(i int) { runJob(nseq + i) })
 }
 
 // ------------------------------------------------------------------------------------------
@@ -1278,6 +1324,7 @@ func evalCorpus(r *mc.Run, corpus []int, ci int, specs [][]rkey, capv int, a *ac
 					continue
 				}
 				shape := specShape(keys)
+				cshape := classShape(keys)
 				exp := refSort(matches, keys)
 				expIDs := idsOf(exp)
 				tied := tiedCount(exp, keys)
@@ -1287,24 +1334,24 @@ func evalCorpus(r *mc.Run, corpus []int, ci int, specs [][]rkey, capv int, a *ac
 					if pv != nil {
 						rep := base("panic", keys)
 						rep["size"], rep["from"], rep["search_after"], rep["search_before"], rep["panic"] = size, from, after, before, fmt.Sprint(pv)
-						r.Violation("panic:index:"+kind+":"+shape, fmt.Sprintf("%s %s %s sort=%s size=%d from=%d after=%q before=%q: panic %v @ %s", eng.Name, corpusString(corpus), q.name, specString(keys), size, from, after, before, pv, mc.TrimStack(st)), rep)
+						r.Violation("panic:"+kind+":"+cshape, fmt.Sprintf("%s %s %s sort=%s size=%d from=%d after=%q before=%q: panic %v @ %s", eng.Name, corpusString(corpus), q.name, specString(keys), size, from, after, before, pv, mc.TrimStack(st)), rep)
 						return nil, false
 					}
 					if o.err != nil {
 						rep := base("error", keys)
 						rep["size"], rep["from"], rep["search_after"], rep["search_before"], rep["error"] = size, from, after, before, o.err.Error()
-						r.Violation("error:index:"+kind+":"+shape, fmt.Sprintf("%s %s %s sort=%s size=%d from=%d after=%q before=%q: error %v", eng.Name, corpusString(corpus), q.name, specString(keys), size, from, after, before, o.err), rep)
+						r.Violation("error:"+kind+":"+cshape, fmt.Sprintf("%s %s %s sort=%s size=%d from=%d after=%q before=%q: error %v", eng.Name, corpusString(corpus), q.name, specString(keys), size, from, after, before, o.err), rep)
 						return nil, false
 					}
 					if int(o.res.Total) != n {
 						rep := base("total", keys)
 						rep["size"], rep["from"], rep["search_after"], rep["search_before"], rep["got_total"], rep["want_total"] = size, from, after, before, o.res.Total, n
-						r.Violation("total:index:"+kind, fmt.Sprintf("%s %s %s sort=%s size=%d from=%d after=%q before=%q: Total %d, want %d", eng.Name, corpusString(corpus), q.name, specString(keys), size, from, after, before, o.res.Total, n), rep)
+						r.Violation("total:"+kind, fmt.Sprintf("%s %s %s sort=%s size=%d from=%d after=%q before=%q: Total %d, want %d", eng.Name, corpusString(corpus), q.name, specString(keys), size, from, after, before, o.res.Total, n), rep)
 					}
 					if o.res.MaxScore != wantMax {
 						rep := base("maxscore", keys)
 						rep["size"], rep["from"], rep["search_after"], rep["search_before"], rep["got_max"], rep["want_max"] = size, from, after, before, o.res.MaxScore, wantMax
-						r.Violation("maxscore:index:"+kind, fmt.Sprintf("%s %s %s sort=%s size=%d from=%d after=%q before=%q: MaxScore %v, want %v", eng.Name, corpusString(corpus), q.name, specString(keys), size, from, after, before, o.res.MaxScore, wantMax), rep)
+						r.Violation("maxscore:"+kind, fmt.Sprintf("%s %s %s sort=%s size=%d from=%d after=%q before=%q: MaxScore %v, want %v", eng.Name, corpusString(corpus), q.name, specString(keys), size, from, after, before, o.res.MaxScore, wantMax), rep)
 					}
 					return o.res, true
 				}
@@ -1331,12 +1378,12 @@ func evalCorpus(r *mc.Run, corpus []int, ci int, specs [][]rkey, capv int, a *ac
 					}
 					rep := base("order", keys)
 					rep["size"], rep["from"], rep["got"], rep["want"] = N+1, 0, got, expIDs
-					cls := "order:index:" + shape
+					cls := "page:" + storeName(N+1) + ":" + cshape
 					if onlyTies {
-						cls = "tie-order:index:" + eng.Name + ":" + shape
+						cls = "tie-order:" + eng.Name
 						rep["natural_order_assumed"] = idsOf(matches)
 					}
-					r.Violation(cls, fmt.Sprintf("%s %s %s sort=%s: all hits %v, want %v (natural order %v)", eng.Name, corpusString(corpus), q.name, specString(keys), got, expIDs, idsOf(matches)), rep)
+					r.Violation(cls, fmt.Sprintf("index level: %s %s %s sort=%s: all hits %v, want %v (natural order %v)", eng.Name, corpusString(corpus), q.name, specString(keys), got, expIDs, idsOf(matches)), rep)
 					r.Outcome(fmt.Sprintf("idx|%s|%s|n=%d|WRONG", eng.Name, shape, n))
 					continue
 				}
@@ -1362,7 +1409,7 @@ func evalCorpus(r *mc.Run, corpus []int, ci int, specs [][]rkey, capv int, a *ac
 					if g := bx.HitIDs(res); !eqS(g, expIDs[lo:hi]) {
 						rep := base("page", keys)
 						rep["size"], rep["from"], rep["got"], rep["want"], rep["full_order"] = p.size, p.from, g, expIDs[lo:hi], expIDs
-						r.Violation("page:index:"+storeName(p.size+p.from)+":"+shape, fmt.Sprintf("%s %s %s sort=%s size=%d from=%d: hits %v, want positions [%d,%d) of %v", eng.Name, corpusString(corpus), q.name, specString(keys), p.size, p.from, g, lo, hi, expIDs), rep)
+						r.Violation("page:"+storeName(p.size+p.from)+":"+cshape, fmt.Sprintf("index level: %s %s %s sort=%s size=%d from=%d: hits %v, want positions [%d,%d) of %v", eng.Name, corpusString(corpus), q.name, specString(keys), p.size, p.from, g, lo, hi, expIDs), rep)
 					}
 				}
 				// SearchAfter / SearchBefore from every hit under a total order
@@ -1377,7 +1424,7 @@ func evalCorpus(r *mc.Run, corpus []int, ci int, specs [][]rkey, capv int, a *ac
 						if !ok {
 							rep := base("decoded-sort", keys)
 							rep["hit"], rep["decoded_sort"] = hit.ID, hit.DecodedSort
-							r.Violation("decoded-sort:index:"+shape, fmt.Sprintf("%s %s %s sort=%s: hit %s has DecodedSort %q for %d sort keys", eng.Name, corpusString(corpus), q.name, specString(keys), hit.ID, hit.DecodedSort, len(keys)), rep)
+							r.Violation("decoded-sort:"+cshape, fmt.Sprintf("%s %s %s sort=%s: hit %s has DecodedSort %q for %d sort keys", eng.Name, corpusString(corpus), q.name, specString(keys), hit.ID, hit.DecodedSort, len(keys)), rep)
 							continue
 						}
 						missNum := boundaryMissingNumeric(exp[h], keys)
@@ -1410,7 +1457,7 @@ func evalCorpus(r *mc.Run, corpus []int, ci int, specs [][]rkey, capv int, a *ac
 									a.add("after_runs_from_boundary_hit_missing_numeric_key", 1)
 								}
 								if g := bx.HitIDs(res); !eqS(g, want) {
-									cls := kind + ":index:" + shape
+									cls := kind + ":" + cshape
 									if missNum {
 										cls = knownAfterClass
 									}
@@ -1441,8 +1488,8 @@ func evalCorpus(r *mc.Run, corpus []int, ci int, specs [][]rkey, capv int, a *ac
 func corpora(r *mc.Run, capv int) [][]int {
 	var out [][]int
 	maxLen := mc.Pick(r, 3, 4)
-	if r.Quick() && capv < 1000 {
-		maxLen = 2
+	if capv < 1000 {
+		maxLen-- // the cap=3 phase repeats the enumeration one step shorter (plus the fixed corpora)
 	}
 	for l := 0; l <= maxLen; l++ {
 		total := pow(len(profiles), l)
@@ -1475,19 +1522,31 @@ func corpora(r *mc.Run, capv int) [][]int {
 	return out
 }
 
-func partB(r *mc.Run, cs [][]int, capv int) {
+// partB: small = the corpora of at most one document, sequentially and in order (so that the
+// counterexample kept for a class is a smallest one, reproducible with the public Index API);
+// otherwise all the others in parallel.
+func partB(r *mc.Run, cs [][]int, capv int, small bool) {
 	specs := idxSpecs()
-	// largest first so that the long items do not end up last
-	order := make([]int, len(cs))
-	for i := range order {
-		order[i] = i
+	var order []int
+	for i := range cs {
+		if (len(cs[i]) <= 1) == small {
+			order = append(order, i)
+		}
 	}
-	sort.SliceStable(order, func(i, j int) bool { return len(cs[order[i]]) > len(cs[order[j]]) })
-	r.ParFor(len(order), 0, func(i int) {
+	one := func(i int) {
 		a := &acc{cnt: map[string]int64{}}
 		defer a.flush(r)
 		evalCorpus(r, cs[order[i]], order[i], specs, capv, a)
-	})
+	}
+	if small {
+		for i := range order {
+			one(i)
+		}
+		return
+	}
+	// largest first so that the long items do not end up last
+	sort.SliceStable(order, func(i, j int) bool { return len(cs[order[i]]) > len(cs[order[j]]) })
+	r.ParFor(len(order), 0, one)
 }
 
 // ------------------------------------------------------------------------------------------
@@ -1550,11 +1609,13 @@ func Run(r *mc.Run) {
 			r.Cap(fmt.Sprintf("deadline before PreAllocSizeSkipCap=%d phase", capv))
 			return
 		}
+		cs := corpora(r, capv)
+		partB(r, cs, capv, true)
 		t0 := time.Now()
 		partA(r, families(r, capv), capv)
 		r.Note(fmt.Sprintf("wall_s_collector_level_cap_%d", capv), time.Since(t0).Seconds())
 		t0 = time.Now()
-		partB(r, corpora(r, capv), capv)
+		partB(r, cs, capv, false)
 		r.Note(fmt.Sprintf("wall_s_index_level_cap_%d", capv), time.Since(t0).Seconds())
 		r.Count(fmt.Sprintf("phase_cap_%d_done", capv), 1)
 	}
